@@ -363,6 +363,22 @@ func ruleTimerReplace(c *RC) *RuleResult {
 				} else {
 					r.fail(fn.Name+"/write:recv.tt", c.Prog.Pos(s.Node), "the runtime timer is assigned in an unexpected function")
 				}
+				// a runtime timer that may be armed is let go of only after Stop()
+				for _, sn := range s.Snaps {
+					r.Sites++
+					armed, known := sn.F.value(mkAtom("nn", fld(c.timerRoles().tt, false), nil))
+					stopSeen := false
+					for ev := range sn.Events {
+						if strings.HasSuffix(ev, "time.Timer.Stop") {
+							stopSeen = true
+						}
+					}
+					if known && !armed || stopSeen {
+						r.ok(fn.Name + ": the runtime timer field is overwritten only when empty or after Stop()")
+					} else {
+						r.fail(fn.Name+"/overwrite-armed", c.Prog.Pos(s.Node), "the runtime timer field is overwritten while a timer may be armed and without Stop(): its expiry is still delivered later (stale)")
+					}
+				}
 			}
 			if s.Kind == "call" && s.Callee == "ext:time.NewTimer" {
 				for _, sn := range s.Snaps {
@@ -374,6 +390,10 @@ func ruleTimerReplace(c *RC) *RuleResult {
 								stopped = true
 							}
 						}
+					}
+					// read as a whole (private helpers are walked inline): the field is known to hold no runtime timer here
+					if armed, known := sn.F.value(mkAtom("nn", fld(c.timerRoles().tt, false), nil)); known && !armed {
+						stopped = true
 					}
 					if stopped {
 						r.ok(fmt.Sprintf("%s: NewTimer only after the previous runtime timer was stopped", fn.Name))
